@@ -13,7 +13,8 @@ from vt import kinds, tags as vtags
 
 EDIT_KINDS = ['value', 'element', 'callable-compatible', 'callable-incompatible', 'arg-added',
               'arg-removed', 'tag-added', 'tag-removed', 'alias-created', 'alias-broken',
-              'subtree-moved', 'siblings-swapped', 'btype', 'btype-subclass', 'container-type']
+              'subtree-moved', 'subtree-moved-slot-deleted', 'siblings-swapped', 'btype',
+              'btype-subclass', 'container-type']
 
 COMPATIBLE = {kinds.node: kinds.node2, kinds.node2: kinds.node, kinds.Base: kinds.Other,
               kinds.Other: kinds.Base}
@@ -224,6 +225,25 @@ def apply_edit(root, kind, rng, leaves):
     host = rng.choice(hosts)
     set_ref(p, s, gen.Leaf(rng.choice(leaves)))
     host.kw[rng.choice(free_kw(host))] = sub
+    return True
+  if kind == 'subtree-moved-slot-deleted':
+    # the subtree moves to another argument while its old argument / dict key is removed
+    cands = [(p, s) for p, s in nonleaf if (isinstance(p, gen.B) and s[0] == 'kw' and s[1] != 'uid')
+             or isinstance(p, gen.Map)]
+    if not cands:
+      return False
+    p, s = rng.choice(cands)
+    sub_ = get_ref(p, s)
+    hosts = [b for b in bs if free_kw(b) and b.uid not in descendants(sub_) and b is not p]
+    if not hosts:
+      return False
+    host = rng.choice(hosts)
+    if isinstance(p, gen.B):
+      del p.kw[s[1]]
+      p.tags.pop(s[1], None)
+    else:
+      del p.items[s[1]]
+    host.kw[rng.choice(free_kw(host))] = sub_
     return True
   if kind == 'siblings-swapped':
     cands = [b for b in bs if len([k for k in b.kw if k != 'uid']) >= 2]
